@@ -22,7 +22,7 @@ from gym_gridverse.geometry import Position, Shape
 from gym_gridverse.grid_object import Color, Floor, MovingObstacle, Telepod
 
 from .. import compose, enc, gen, workloads
-from ..monitor import call_real, describe_exc, reach
+from ..monitor import call_real, describe_exc, raised_by_harness, reach
 
 ID = 'C02'
 LEVEL = 'exploration'
@@ -43,7 +43,7 @@ RULE = ('case = (config or composition, seed, operation sequence, hostile schedu
 ASSUMPTIONS = ['the library generator is created/seeded by the harness before snapshots; construction-time sampling by the YAML '
                'factory (which legitimately uses the library generator) happens before the first snapshot']
 REQUIRED = {'quick': {'pairs.compared': 60, 'ops.snapshotted': 5000, 'ops.consumed_randomness': 300, 'hostile.actions': 1000,
-                      'children.compared': 40, 'compositions.compared': 10, 'reseeded.compared': 50, 'component.reset_pairs': 200}}
+                      'children.compared': 40, 'compositions.compared': 10, 'fresh_library.pairs': 10, 'reseeded.compared': 50, 'component.reset_pairs': 200}}
 
 
 def ops_for(rng, n):
@@ -282,6 +282,32 @@ def compare_pair(ctx, label, kind, data, seed, nops, sched_seed, payload, other_
     return solo
 
 
+def library_stream_after(kind, data, seed, ops):
+    """a never-used library generator (as in a fresh interpreter), a seeded environment living through `ops`, then the first
+    numbers the library generator hands to somebody else"""
+    gv_rng._gv_rng = None
+    env = make_env(kind, data, seed)
+    run_trace(env, ops)
+    return tuple(gv_rng.get_gv_rng().random(3).tolist())
+
+
+def fresh_library_generator(ctx, label, kind, data, seed, payload):
+    """seeding an environment must not seed (= make predictable) the library generator other code draws from: with the
+    library generator not yet created, two runs with the same environment seed leave *different* library streams (fresh
+    entropy), and the environment traces stay equal"""
+    ops = ops_for(gen.rng_for('C02fresh', label, seed), 25)
+    ok1, a = call_real(library_stream_after, kind, data, seed, ops)
+    ok2, b = call_real(library_stream_after, kind, data, seed, ops)
+    gv_rng.reset_gv_rng(12345)
+    ctx.ev(2)
+    ctx.hit('fresh_library.pairs')
+    if ok1 and ok2 and a == b:
+        ctx.violation('isolation', 'library_generator.seeded_by_environment_seed',
+                      f'{label}: with the library generator not yet created, two runs of an environment seeded {seed} leave the '
+                      f'library generator producing the same numbers {a} - set_seed/operations made the library stream a function '
+                      f'of the environment seed', 'fresh_case', payload)
+
+
 # ------------------------------------------------------------------ cross-process digests
 
 
@@ -463,6 +489,7 @@ def composition_factory(comp_seed):
         comp.types = list(gen.GRID_TYPES)
         comp.colors = list(Color)
         comp.shape = (kw['shape'].height, kw['shape'].width)
+        comp.wrap_parts = rng.choice([0, 0, 1, 2, 3])  # chain members behind **kwargs wrappers / callable objects
         reset = reset_fs.factory(name, **kw)
         return comp.build(reset)
     return make
@@ -492,6 +519,8 @@ def run(ctx):
                 payload = {'config': name, 'seed': seed, 'nops': nops, 'sched': job}
                 solo = compare_pair(ctx, name, 'config', data, seed, nops, job, payload, others)
                 ctx.addset('configs', name)
+                if s == 0:
+                    fresh_library_generator(ctx, name, 'config', data, seed, payload)
                 if solo and s == 0 and name.startswith('gv_dynamic'):
                     ctx.sample('trace_head', {'config': name, 'seed': seed, 'first_ops': [list(e) for e in solo[:4]]}, per_kind=1)
         for k in range(ctx.pick(16, 800)):
@@ -500,15 +529,19 @@ def run(ctx):
             if ctx.out_of_time(0.75):
                 break
             seed = ctx.seed * 1000 + k
-            payload = {'composition': k, 'seed': seed, 'nops': nops, 'sched': k}
+            payload = {'composition': ctx.seed * 977 + k, 'seed': seed, 'nops': nops, 'sched': k}
             ok, factory = call_real(composition_factory, ctx.seed * 977 + k)
             try:
                 factory()
-            except Exception:
+            except Exception as e:
+                if raised_by_harness(e):
+                    ctx.inconc(f'composition #{ctx.seed * 977 + k} could not be assembled: {describe_exc(e)}')
+                ctx.add('compositions_not_assembled')
                 continue
             compare_pair(ctx, f'composition#{ctx.seed * 977 + k}', 'comp', factory, seed, nops, k, payload,
                          [('comp', factory, seed), ('comp', factory, seed + 3)])
             ctx.hit('compositions.compared')
+            fresh_library_generator(ctx, f'composition#{ctx.seed * 977 + k}', 'comp', factory, seed, payload)
         component_level(ctx, ctx.pick(400, 6000))
         # cross-process digests under different PYTHONHASHSEED
         all_hash_seeds = list(range(1, ctx.pick(5, 33)))
@@ -534,6 +567,12 @@ def replay(ctx, kind, payload):
         factory = composition_factory(payload['composition'])
         compare_pair(ctx, f'composition#{payload["composition"]}', 'comp', factory, payload['seed'], payload['nops'],
                      payload['sched'], payload, [('comp', factory, payload['seed'])])
+    elif kind == 'fresh_case':
+        if 'config' in payload:
+            fresh_library_generator(ctx, payload['config'], 'config', byname[payload['config']], payload['seed'], payload)
+        else:
+            fresh_library_generator(ctx, f'composition#{payload["composition"]}', 'comp',
+                                    composition_factory(payload['composition']), payload['seed'], payload)
     elif kind == 'hash_case':
         mine = config_digests(payload['seed'], payload['nops'], only=[payload['config']])
         env = dict(os.environ, PYTHONHASHSEED=str(payload['hashseed']))
